@@ -40,6 +40,12 @@ class RecDisc:
 
     def rhs(self, f):
         k = len(self.calls)
+        if self.returns == "views":
+            # the right-hand side hands out VIEWS of the arrays of the field it was given (dq/dt = P q for a permutation P, written
+            # as a slice of the input): whatever the integrator does to its stage field afterwards must not reach into them
+            r = self.fun(k, f.time, f.data)
+            self.calls.append((f.time, [d.copy() for d in f.data], [np.array(x, dtype=float).copy() for x in r]))
+            return r
         r = self.fun(k, f.time, [d.copy() for d in f.data]) if self.inner is None else [x.copy() for x in self.inner.rhs(f)]
         self.calls.append((f.time, [d.copy() for d in f.data], [np.array(x, dtype=float).copy() for x in r]))
         if self.returns == "asis":
@@ -231,7 +237,7 @@ def rkness(ctx, rng, idx):
     else:
         n = int(rng.integers(1, 7))
         fun, fdesc = _nonlinear_rhs(rng, n)
-        mode = str(rng.choice(["fresh", "fresh", "buffer", "stored"]))
+        mode = str(rng.choice(["fresh", "fresh", "buffer", "stored", "views"]))
         mesh = _Mesh(n)
         f0 = ffield.fdata(_Model(), mesh, [rng.uniform(-1, 1, n)], t=float(rng.uniform(-2, 2)))
         localdt = bool(rng.random() < 0.3)
@@ -243,11 +249,15 @@ def rkness(ctx, rng, idx):
             tsplit = f0.time + float(np.min(dt)) * float(rng.choice([0.3, 0.6, 2.0, -1.0]))
             fun = lambda k, t, d: [table[0] if t <= tsplit else table[1]]
             fdesc = {"forcing": "stored arrays table[t > tsplit]", "table": pristine, "tsplit": tsplit}
+        elif mode == "views":
+            stride = int(rng.choice([-1, -1, 1]))
+            fun = (lambda k, t, d: [d[0][::-1]]) if stride == -1 else (lambda k, t, d: [d[0][:]])       # reversed view / plain view of the input
+            fdesc = {"forcing": "dq/dt = P q returned as a %s of the input array" % ("reversed view" if stride == -1 else "plain view")}
         elif rng.random() < 0.25:
             fun.vanish_at(f0.time)
             fdesc["rhs_vanishes_at_step_start"] = True
         disc = RecDisc(fun, returns="asis" if mode == "stored" else mode)
-        fdesc["rhs_returns"] = {"fresh": "fresh arrays", "buffer": "one work buffer overwritten at every call", "stored": "arrays it keeps"}[mode]
+        fdesc["rhs_returns"] = {"fresh": "fresh arrays", "buffer": "one work buffer overwritten at every call", "stored": "arrays it keeps", "views": "views of the arrays of the field it was given"}[mode]
         ctx.describe(integrator=iname, rhs="random nonlinear", localdt=localdt, dt=dt, y0=f0.data[0], t0=f0.time, **fdesc)
     solver = gen.integ(iname)(mesh, disc)
     f = f0.copy()
